@@ -421,3 +421,31 @@ func wants(want []string, src net.IP) (w4, w6, known bool) {
 	is4 := src.To4() != nil
 	return is4, !is4, true
 }
+
+// barrierOrWedged is the barrier for checks whose property includes "the node does not wedge": when
+// the node does not become quiescent, it distinguishes a machine that is merely busy (inconclusive)
+// from a serve loop that is blocked for good - every goroutine of the module blocked, none parked in
+// the socket read with an empty queue - which is a deadlock.
+func (s *Srv) barrierOrWedged(c *kit.Case, pid, what string) *kit.Violation {
+	err := s.C.Quiesce(barrierTimeout)
+	if err == nil {
+		return nil
+	}
+	for i := 0; i < 3; i++ {
+		if ok, _ := s.C.AllBlocked(); !ok {
+			c.Inconclusive = err.Error()
+			return nil
+		}
+		time.Sleep(50 * time.Millisecond)
+	}
+	if s.C.Idle() {
+		c.Inconclusive = err.Error()
+		return nil
+	}
+	var stuck []string
+	for _, g := range s.C.ModuleGoroutines() {
+		stuck = append(stuck, fmt.Sprintf("[%s] %s", g.State, g.Top))
+	}
+	sort.Strings(stuck)
+	return kit.Violatef(pid+":node-wedged", "%s: the node stopped reading its socket - datagrams are queued, and every goroutine of the library is blocked: %v", what, stuck)
+}
